@@ -151,9 +151,16 @@ pub fn par_cases<F>(n: u64, threads: usize, only: Option<u64>, f: F) -> Acc
 where
     F: Fn(u64, &mut Acc) + Sync,
 {
+    // a panic of the harness itself while judging one case must not throw away what the other
+    // cases found: it makes the run inconclusive, nothing more
+    let guarded_case = |i: u64, a: &mut Acc| {
+        if std::panic::catch_unwind(std::panic::AssertUnwindSafe(|| f(i, a))).is_err() {
+            a.inconclusive(format!("harness panicked while running case {}", i));
+        }
+    };
     if let Some(i) = only {
         let mut a = Acc::new();
-        f(i, &mut a);
+        guarded_case(i, &mut a);
         return a;
     }
     let threads = threads.max(1).min(n.max(1) as usize);
@@ -171,7 +178,7 @@ where
                             break;
                         }
                         for i in start..(start + chunk).min(n) {
-                            f(i, &mut a);
+                            guarded_case(i, &mut a);
                         }
                     }
                     a
